@@ -61,7 +61,7 @@ REGISTRY = {
                 oracle=[OD2.oracle_c18, OD2.oracle_c18_blocks]),
     "C19": _design_prop(OD2.oracle_c19),
     "C22": _design_prop(OD2.oracle_c22),
-    "C14": dict(_design_prop(OD2.oracle_c14, quick=40), correspondence=[i7_layout.corr_layout]),
+    "C14": dict(_design_prop(OD2.oracle_c14, quick=40), correspondence=[i7_layout.corr_layout, i7_layout.corr_decode]),
     "C15": _design_prop(OD2.oracle_c15),
     "C23": _design_prop(OD2.oracle_c23),
     "C24": _design_prop(OD2.oracle_c24),
@@ -77,7 +77,7 @@ REGISTRY = {
     "C07": dict(_design_prop(OD.oracle_c07, quick=45), correspondence=[i8_pipeline.corr_pipeline, i9_randomgen.corr_randomgen]),
     "C08": dict(_design_prop(OD.oracle_c08, quick=50), correspondence=[i8_pipeline.corr_pipeline]),
     "C09": _design_prop(OD.oracle_c09),
-    "C16": _design_prop(OD.oracle_c16),
+    "C16": dict(_design_prop(OD.oracle_c16, quick=50), correspondence=[i7_layout.corr_decode]),
     "C17": dict(_design_prop(OD.oracle_c17, quick=50), correspondence=[i7_layout.corr_conforms]),
     "C27": {
         "correspondence": [i4_text.corr_text, i4_text.corr_sample_lines],
